@@ -222,6 +222,8 @@ type evmSim struct {
 	notes         map[string]int
 	txNotes       map[string]int // watcher log lines that name a transaction, by tx hash (hex)
 	calls         int
+	gs            *gsSim // nil: index 0 with one fixed key
+	subCount      int    // log subscriptions made so far (one per Run)
 }
 
 func newEvmSim(head uint64) *evmSim {
@@ -319,10 +321,45 @@ type simCallArgs struct {
 	Input *hexutil.Bytes     `json:"input"`
 }
 
+// ---------------------------------------------------------------- the governance contract (guardian-set getters), scripted
+// gsSim is the chain's truth about the guardian sets plus the faults of the next fetch.  Like the real contract it answers
+// getGuardianSet(i) for an index that does not exist (yet) with an empty key list (a Solidity mapping has no missing entries).
+type gsCall struct {
+	Kind  string `json:"kind"`  // "idx" | "set"
+	Asked int64  `json:"asked"` // index named by a set call (-1 for the index call)
+	Idx   int64  `json:"idx"`   // answer of the index call (-1: error)
+	Keys  []int  `json:"keys"`  // answer of the set call (key ids)
+	Err   bool   `json:"err"`
+}
+
+type gsSim struct {
+	sets    [][]int // guardianSets[i] as key ids; current index = len-1
+	failIdx bool    // the index call fails
+	failSet bool    // the set call fails
+	mid     [][]int // upgrades that land right after the index call was answered (between the two calls of one fetch)
+	lagSet  bool    // the set call is answered by a backend that does not know the newest set yet
+	oldIdx  bool    // the index call is answered by a backend that does not know the newest set yet
+	calls   []gsCall
+}
+
+func gsKeyAddr(id int) ethcommon.Address {
+	return ethcommon.BytesToAddress([]byte{0x6b, byte(id >> 16), byte(id >> 8), byte(id)})
+}
+func gsKeyID(a ethcommon.Address) int {
+	return int(a[17])<<16 | int(a[18])<<8 | int(a[19])
+}
+func gsAddrs(ids []int) []ethcommon.Address {
+	out := make([]ethcommon.Address, 0, len(ids))
+	for _, id := range ids {
+		out = append(out, gsKeyAddr(id))
+	}
+	return out
+}
+
 func (s *evmSim) Call(ctx context.Context, args simCallArgs, blk json.RawMessage) (hexutil.Bytes, error) {
 	s.mu.Lock()
+	defer s.mu.Unlock()
 	s.calls++
-	s.mu.Unlock()
 	var data []byte
 	if args.Data != nil {
 		data = *args.Data
@@ -332,15 +369,55 @@ func (s *evmSim) Call(ctx context.Context, args simCallArgs, blk json.RawMessage
 	if len(data) < 4 {
 		return nil, fmt.Errorf("verif sim: short call data")
 	}
+	if args.To == nil || *args.To != evmContract {
+		return nil, fmt.Errorf("verif sim: eth_call to another contract")
+	}
 	m, err := evmABI.MethodById(data[:4])
 	if err != nil {
 		return nil, err
 	}
+	g := s.gs
 	switch m.Name {
 	case "getCurrentGuardianSetIndex":
-		return m.Outputs.Pack(uint32(0))
+		if g == nil {
+			return m.Outputs.Pack(uint32(0))
+		}
+		if g.failIdx {
+			g.calls = append(g.calls, gsCall{Kind: "idx", Asked: -1, Idx: -1, Err: true})
+			return nil, errInjected
+		}
+		idx := len(g.sets) - 1
+		if g.oldIdx && idx > 0 {
+			idx--
+		}
+		g.calls = append(g.calls, gsCall{Kind: "idx", Asked: -1, Idx: int64(idx)})
+		// the contract is upgraded between the two calls of this fetch
+		g.sets = append(g.sets, g.mid...)
+		g.mid = nil
+		return m.Outputs.Pack(uint32(idx))
 	case "getGuardianSet":
-		return m.Outputs.Pack(ethabi.StructsGuardianSet{Keys: []ethcommon.Address{ethcommon.HexToAddress("0xbeFA429d57cD18b7F8A4d91A2da9AB4AF05d0FBe")}, ExpirationTime: 0})
+		if g == nil {
+			return m.Outputs.Pack(ethabi.StructsGuardianSet{Keys: []ethcommon.Address{ethcommon.HexToAddress("0xbeFA429d57cD18b7F8A4d91A2da9AB4AF05d0FBe")}, ExpirationTime: 0})
+		}
+		in, err := m.Inputs.Unpack(data[4:])
+		if err != nil || len(in) != 1 {
+			return nil, fmt.Errorf("verif sim: bad getGuardianSet arguments")
+		}
+		asked := int64(in[0].(uint32))
+		if g.failSet {
+			g.calls = append(g.calls, gsCall{Kind: "set", Asked: asked, Idx: -1, Err: true})
+			return nil, errInjected
+		}
+		known := len(g.sets)
+		if g.lagSet && known > 1 {
+			known--
+		}
+		keys := []int{}
+		if asked < int64(known) {
+			keys = g.sets[asked]
+		}
+		g.calls = append(g.calls, gsCall{Kind: "set", Asked: asked, Idx: -1, Keys: append([]int{}, keys...)})
+		return m.Outputs.Pack(ethabi.StructsGuardianSet{Keys: gsAddrs(keys), ExpirationTime: 0})
 	}
 	return nil, fmt.Errorf("verif sim: unexpected call %s", m.Name)
 }
@@ -369,6 +446,7 @@ func (s *evmSim) Logs(ctx context.Context, crit json.RawMessage) (*rpc.Subscript
 	s.mu.Lock()
 	s.notifier = notifier
 	s.subID = sub.ID
+	s.subCount++
 	s.critAddr = nil
 	s.critT0 = nil
 	if len(c.Address) > 0 && string(c.Address) != "null" {
